@@ -185,7 +185,8 @@ def run(rep: vk.Report):
                           "history": steps[:steps.index(step) + 1] if steps.count(step) == 1 else list(steps), "values": sol.values,
                           "recomputed": common.fval(P.objective.evaluate(sol.values))})
             # orientation: the reported point must not be worse than the box centre / corners for the CURRENT sense (catches a stale sign)
-            if sol.status == SolverStatus.OPTIMAL and kind != "nlp":
+            # (only for linear programs: a local solver may legitimately stop at a local optimum of a non-convex flip)
+            if sol.status == SolverStatus.OPTIMAL and kind == "lp" and is_linear(P.objective):
                 probes = [{v.name: c for v in P.variables} for c in (-2.0, 0.0, 0.5, 1.0)]
                 feas = [pt for pt in probes if all(cn.is_satisfied(pt) for cn in P.constraints)]
                 for pt in feas:
